@@ -12,7 +12,7 @@ use uuid::Uuid;
 use vharness::libwallet::api_impl::{foreign, owner};
 use vharness::libwallet::verif_hooks::{tx as itx, updater};
 use grin_util::ZeroingString;
-use vharness::libwallet::{BlockFees, Error, InitTxArgs, IssueInvoiceTxArgs, OutputData, Slate, SlateState, WalletLCProvider};
+use vharness::libwallet::{BlockFees, Error, InitTxArgs, IssueInvoiceTxArgs, OutputData, OutputStatus, Slate, SlateState, TxLogEntryType, WalletLCProvider};
 use vharness::prng::{seed_from_env, Prng};
 use vharness::scen::*;
 use vharness::*;
@@ -54,6 +54,7 @@ struct Hist {
 	force_late: Option<bool>,
 	/// set by a directed episode: the next cancel names this slate
 	force_cancel: Option<Uuid>,
+	force_direct: bool,
 }
 
 fn acct_name(a: u64) -> Option<&'static str> {
@@ -798,7 +799,11 @@ impl Hist {
 			_ => (None, Some(Uuid::from_bytes([9u8; 16]))),
 		};
 		let snum = slate.map(|u| self.slate_nums.get(&u).cloned().unwrap_or(999_999));
-		if self.p.chance(1, 2) && self.s.node.height() < 100 && self.update_state(i) {
+		let via_owner = (self.force_direct || self.p.chance(1, 2)) && self.s.node.height() < 100;
+		// one owner-level cancel in three is the first call to meet the node since the last change of
+		// the chain (no separate update before it): its own refresh then decides what can be cancelled
+		let direct = via_owner && (self.force_direct || self.p.chance(1, 3));
+		if via_owner && (direct || self.update_state(i)) {
 			// the owner API call: update_wallet_state first, then the cancel proper. (The state was
 			// brought up to date by the separate update just recorded, so an error of this call is
 			// the cancel's own refusal and not one of the update part's.)
@@ -809,16 +814,22 @@ impl Hist {
 			let parent = self.active(i);
 			let inst = self.s.wallets[i].inst.clone();
 			let mask = self.s.wallets[i].mask.clone();
+			let target_mined = self.target_mined(i, id, slate);
 			let r = guarded(|| owner::cancel_tx(inst, mask.as_ref(), &None, id, slate));
 			let rc = rc_of(&r);
-			// (an error from the update part — not a refusal of the cancel itself — is not followed)
-			let nomodel = !(rc == vec![0] || rc == vec![1, 9] || rc == vec![1, 10]);
+			// (an error from the update part — not a refusal of the cancel itself — is not followed; without
+			// the separate update before it an error may come from either part)
+			let nomodel = if direct {
+				rc != vec![0]
+			} else {
+				!(rc == vec![0] || rc == vec![1, 9] || rc == vec![1, 10])
+			};
 			self.record(
 				i,
 				json!({"k": "cancel", "id": id, "slate": snum, "via_owner": true, "tip": tip, "parent": parent,
-					"view": view, "chain": chain}),
+					"view": view, "chain": chain, "direct": direct}),
 				rc,
-				json!({"nomodel": nomodel}),
+				json!({"nomodel": nomodel, "target_mined": target_mined}),
 			);
 			return;
 		}
@@ -830,6 +841,40 @@ impl Hist {
 		});
 		let rc = rc_of(&r);
 		self.record(i, json!({"k": "cancel", "id": id, "slate": snum}), rc, json!({}));
+	}
+	/// is the transaction an owner-level cancel names (in the active account) already in the chain:
+	/// its kernel is there, or one of the outputs it created is in the UTXO set
+	fn target_mined(&self, i: usize, id: Option<u32>, slate: Option<Uuid>) -> bool {
+		let chain = self.s.node.chain.clone();
+		self.s.with(i, |b, _| {
+			let pk = b.parent_key_id();
+			let entry = b.tx_log_iter().find(|t| {
+				t.parent_key_id == pk
+					&& (id.map(|x| t.id == x).unwrap_or(false)
+						|| (slate.is_some() && t.tx_slate_id == slate && id.is_none()))
+					&& (t.tx_type == TxLogEntryType::TxSent || t.tx_type == TxLogEntryType::TxReceived)
+			});
+			let t = match entry {
+				Some(t) => t,
+				None => return false,
+			};
+			if let Some(e) = t.kernel_excess {
+				if chain.get_kernel_height(&e, None, None).unwrap().is_some() {
+					return true;
+				}
+			}
+			for o in b.iter() {
+				if o.root_key_id == pk && o.tx_log_entry == Some(t.id) && o.status == OutputStatus::Unconfirmed {
+					if let Some(c) = &o.commit {
+						let commit = Commitment::from_vec(grin_util::from_hex(c).unwrap());
+						if chain.get_unspent(commit).unwrap().is_some() {
+							return true;
+						}
+					}
+				}
+			}
+			false
+		})
 	}
 	fn coinbase_key(&mut self, i: usize) {
 		// a foreign caller names an existing key id (or a fresh one)
@@ -911,6 +956,22 @@ impl Hist {
 		let d = dest.unwrap();
 		if self.active(r_i) != d {
 			self.set_active(r_i, d);
+		}
+		if self.p.chance(1, 5) {
+			// before either wallet has looked at the chain again, one side asks to cancel the mined
+			// transaction through the owner API: the call's own refresh must find it confirmed
+			let (who, acct) = if self.p.coin() { (sender, self.flights[f].src_parent) } else { (r_i, d) };
+			if self.active(who) != acct {
+				self.set_active(who, acct);
+			}
+			self.force_cancel = Some(self.flights[f].id);
+			self.force_direct = true;
+			self.cancel(who);
+			self.force_direct = false;
+			self.force_cancel = None;
+			if self.active(r_i) != d {
+				self.set_active(r_i, d);
+			}
 		}
 		let all = self.p.coin();
 		self.refresh(r_i, all);
@@ -1332,6 +1393,7 @@ fn main() {
 			restores: 0,
 			force_late: None,
 			force_cancel: None,
+			force_direct: false,
 		};
 		// a funded start (modelled as coinbase ops): the same number of blocks to each wallet, in
 		// half of the histories also to the second account of each wallet (so that per-account
